@@ -18,7 +18,7 @@ import (
 //verif:noreplay Prometheus is replaced by the engine's abstract multiset
 func VerifC16_Labels() {
 	n := zz.Choice("nlabels", 4)
-	names := []string{"zone", "app", "env"}
+	names := []string{"id", "ID", "env"} // two keys differ only by case: orderings that ignore case cannot tell them apart
 	m := map[string]string{}
 	for i := 0; i < n; i++ {
 		m[names[i]] = zz.String("val", i)
